@@ -245,7 +245,8 @@ class MonitorHarness:
         raise Unsupported(f"field kind {kind}")
 
     def snapshot_terms(self, it):
-        return dict(self.obj.fields)
+        from .values import frozen_copy
+        return {k: frozen_copy(v) for k, v in self.obj.fields.items()}
 
     def ns(self, it, fields):
         o = Obj(self.cls)
